@@ -6,7 +6,9 @@ documented ValueError for no data}; returned trees pass the literal arborescence
 the dimensions the document declares (read off the text by the oracle's own regexes).  Model side (`drv_c20`): the
 Lean tokenizer, Newick statement parser, PHYLIP/FASTA line readers and the NEXUS block/statement loops; their verdicts
 (and token lists / tree shapes / row lengths) are compared with the implementation's on every generated input."""
+import fractions
 import io
+import numbers
 import re
 import sys
 import time
@@ -15,33 +17,56 @@ import treeutil as tu
 from common import time_limit, Timeout, hex6
 
 ID = "C20"
-GEN_DEPENDS = ["Tables"]
+GEN_DEPENDS = ["Tables", "C20Consts"]
 RULE = ("grammar-generated valid Newick/NEXUS/PHYLIP/FASTA documents (every supported block structure: TAXA, CHARACTERS/DATA "
         "sequential+interleaved, INTERLEAVE x MATCHCHAR matrices with every single-character edit of the matrix body, trees with [&k=v,..]/[&&NHX:..] metadata comments (quoted values, braces, long values) with every single-character corruption inside a comment, metadata extraction on and off, several TAXA blocks, TREES with/without TRANSLATE/LINK/TITLE, SETS/CHARSET, unknown blocks) x {every prefix, single "
         "and double edits (delete, insert, replace, drop span, duplicate span, drop word, insert keyword)}, random strings and "
-        "keyword soups over each format's token alphabet, deep nesting / long comment runs; thorough adds every string up to a "
+        "keyword soups over each format's token alphabet, deep nesting / long comment runs; READER OPTIONS x NUMERIC FIELDS: every reader keyword "
+        "that changes parsing (edge_length_type int/float/Fraction, the four rooting modes, suppress_edge_lengths, extract_comment_metadata, store_tree_weights, "
+        "finish_node_fn, case_sensitive_taxon_labels with a case-sensitive namespace, preserve_underscores, suppress_internal/leaf_node_taxa, "
+        "terminating_semicolon_required, ignore_unrecognized_keyword_arguments, is_parse_jplace_tokens, is_assign_internal_labels_to_edges, an attached "
+        "(empty / populated) taxon_namespace; NEXUS exclude_chars / exclude_trees / store_ignored_blocks / unconstrained_taxa_accumulation_mode; PHYLIP "
+        "strict / interleaved / multispace_delimiter / underscores_to_spaces / ignore_invalid_chars; every matrix class and DataSet data_type for PHYLIP and "
+        "FASTA), 1-3 option sets merged, x one or two numeric fields (edge lengths, [&W] numerator and denominator, NTAX, NCHAR, CHARSET positions and "
+        "steps, TRANSLATE keys, PHYLIP dimensions, continuous cells, jplace edge numbers) replaced by inf, -inf, Infinity, nan, 1e309, 1e400, 1e-400, 0x10, "
+        "1_000, non-ASCII digits, '1.', '.5', '+1', '--1', '1e', 400-digit and 11-digit numbers, empty, 1/0, 0/0, quoted forms, ...; the full cross product "
+        "option set x value x field on small fixed documents in the thorough tier and a sample of it (every option set, value and field) in the quick "
+        "tier; a battery aimed at the regenerated constants (block names and synonyms, end keywords, DATATYPE keywords, initial FORMAT state, strict "
+        "PHYLIP label widths 6-14); thorough adds every string up to a "
         "length bound over a small alphabet per format and every short NEXUS keyword sequence; non-trivial = the text is not a "
         "complete valid document (proper prefix, edited, or random) or the read ends in an error")
 MODELLED_NOT_VERIFIED = [
     "C20: the Lean tokenizer / Newick parser / PHYLIP / FASTA / NEXUS block-and-statement loops are hand-written from "
     "tokenizer.py, nexusprocessing.py, newickreader.py, phylipreader.py, fastareader.py, nexusreader.py (repaired control flow) and tied "
-    "to the code by the per-input comparison of token lists, verdicts, tree shapes and row lengths; the delimiter tables come from Gen/Tables.lean",
-    "C20: Python float()/int() acceptance is modelled for ASCII numerals only (generators stay inside ASCII digits); str.upper()/lower() for ASCII + Latin-1 letters",
-    "C20: NeXML is not among the four readers of the statement; comment-metadata regexes and the construction of state alphabets are outside "
+    "to the code by the per-input comparison of token lists, verdicts, tree shapes and row lengths; the delimiter tables come from Gen/Tables.lean; "
+    "the block names, end-of-block keywords, DATATYPE table, initial FORMAT state and strict PHYLIP label width are regenerated into Gen/C20Consts.lean "
+    "and proved equal to the model's own (bridge theorems)",
+    "C20: Python float()/int() acceptance is modelled for ASCII numerals only (non-ASCII texts are judged by the oracle only); str.upper()/lower() for ASCII + Latin-1 letters",
+    "C20: NeXML is not among the four readers of the statement (it is built on the XML library, not on the tokenizer) and is left out; comment-metadata "
+    "regexes, [&R]/[&U]/[&W] tree comments and the construction of state alphabets are outside "
     "the model (symbol sets are handed over as data; the oracle still judges every read)",
-    "C20: the interpreter recursion limit is a runtime resource the model cannot exhibit (Newick nesting beyond it: known finding)",
-    "C20: reads with reader options (preserve_underscores, suppress_*_taxa, rooting, store_tree_weights, terminating_semicolon_required, ...) "
-    "are judged by the oracle only; the model is of the default options",
+    "C20: the interpreter recursion limit is a runtime resource the model cannot exhibit (Newick nesting beyond it: known finding; the recursive descent "
+    "has no small iterative rewrite)",
+    "C20: reads with reader options (all keywords listed in the coverage rule) are judged by the oracle only; the model is of the default options "
+    "(PHYLIP: strict / interleaved are modelled); NEXUS documents containing numbers of 7 or more digits are judged by the oracle only (the model keeps CHARSET "
+    "position lists explicitly)",
+    "C20: the budget theorem counts loop rounds of the NEXUS model; the Newick statement machine inside a TREE statement and the tokenizer have their own "
+    "linear bounds (newick_steps_linear is about a ghost counter; token_count_bounded)",
 ]
-EXPLANATION = ("Theorems (Props/C20.lean, about the definitions drv_c20 runs; every loop is a total function without fuel): tokenizer_progress, "
+EXPLANATION = ("Theorems (Props/C20.lean, about the definitions drv_c20 runs; every loop is a total function): tokenizer_progress, "
                "token_count_bounded; newick_statement_progress, newick_never_internal (loop progress), newick_balanced, newick_inv_initial, "
                "nesting_sub_safe, skipSemis_leaves_token; ok_dims (final guards only), phylip_never_internal, phylip_loops_bounded; "
                "fasta_never_internal, fasta_rows_nonempty; reader_loop_rule, reader_loop_exit_rule, nexus_never_internal (every NEXUS loop makes "
-               "progress), statement_needs_semicolon + taxa_block_needs_end (a DIMENSIONS/TAXLABELS/LINK/FORMAT statement or TAXA block that is cut "
-               "short cannot return: with termination it is a parse error), nexus_matrix_dims (one MATRIX call; not lifted to the final result), "
+               "progress), NEW nexus_fuel_suffices: readNexus starts with a budget of 18*|text|+8 loop rounds, every round of every loop at every nesting level "
+               "(block loop, statement loops, MATRIX row / cell / multistate loops, skip_to_semicolon, CHARSET positions) takes one unit and an empty budget "
+               "ends the read with a marker that is proved unreachable for every text and every outcome - a global linear step bound (the driver prints the "
+               "rounds used; reader_loop_fuel_rule is the loop rule: body (a,b) gives loop (a+b+1,b+1)); "
+               "statement_needs_semicolon + taxa_block_needs_end (a DIMENSIONS/TAXLABELS/LINK/FORMAT statement or TAXA block that is cut "
+               "short cannot return: with termination it is a parse error), nexus_matrix_dims (one MATRIX call), "
                "nexus_result_dims (every matrix of a successful readNexus result is rectangular with positive width), rowFor_in_range, "
-               "charset_positions_in_range; eof_is_parse_error (dichotomy ok / parse error on every text); newick_steps_linear and "
-               "reader_loop_rounds_linear are about ghost counters defined next to run/iter in the Props file (the driver does not count).  "
+               "charset_positions_in_range; eof_is_parse_error (dichotomy ok / parse error on every text); newick_steps_linear is about a ghost "
+               "counter defined next to run.  Tie A bridges (regenerated Gen/C20Consts.lean = the model's own definitions): block_names_bridge, "
+               "end_keywords_bridge, datatype_bridge, phylip_width_bridge, reader_defaults_bridge.  "
                "Not proved: that rowLen/labelsOf/nsIdx never take their getD defaults inside the NEXUS matrix code (only the row index is guarded); "
                "the 'no AttributeError/IndexError' clause for the implementation itself is evaluated by the oracle.")
 
@@ -51,6 +76,10 @@ ROUTES = {
     "phylip": ["dnamatrix"],
     "fasta": ["dnamatrix"],
 }
+# the other matrix classes (the class fixes the reader's `data_type`); used by the option x numeric-field generator
+MATRIX_ROUTES = {"dnamatrix": "DnaCharacterMatrix", "rnamatrix": "RnaCharacterMatrix", "proteinmatrix": "ProteinCharacterMatrix",
+                 "standardmatrix": "StandardCharacterMatrix", "contmatrix": "ContinuousCharacterMatrix",
+                 "restrictionmatrix": "RestrictionSitesCharacterMatrix", "infinitematrix": "InfiniteSitesCharacterMatrix"}
 
 # ====================================================================== document generators
 PUNCT = ";,()=:'[]{}-\" \n\t_.*?#>\\/"
@@ -481,6 +510,205 @@ NEWICK_OPTIONS = [
     {"extract_comment_metadata": False}, {"terminating_semicolon_required": False},
     {"suppress_internal_node_taxa": False, "suppress_leaf_node_taxa": True, "preserve_underscores": True},
 ]
+# ====================================================================== reader options x numeric fields
+# Every reader keyword that changes parsing; values that are not JSON are "@..." markers (see decode_kwargs).
+TREE_OPTIONS = [
+    {"edge_length_type": "@int"}, {"edge_length_type": "@float"}, {"edge_length_type": "@Fraction"},
+    {"rooting": "default-unrooted"}, {"rooting": "default-rooted"}, {"rooting": "force-unrooted"}, {"rooting": "force-rooted"},
+    {"suppress_edge_lengths": True}, {"extract_comment_metadata": False}, {"extract_comment_metadata": True},
+    {"store_tree_weights": True}, {"finish_node_fn": "@fn"}, {"preserve_underscores": True},
+    # case-sensitive reading is documented to need a case-sensitive namespace (anything else is a usage error on every input)
+    {"case_sensitive_taxon_labels": True, "taxon_namespace": "@tnscs:"}, {"case_sensitive_taxon_labels": True, "taxon_namespace": "@tnscs:T0|t0|T1"},
+    {"suppress_internal_node_taxa": False}, {"suppress_leaf_node_taxa": True}, {"terminating_semicolon_required": False},
+    {"ignore_unrecognized_keyword_arguments": True, "no_such_reader_option": 1}, {"is_parse_jplace_tokens": True},
+    {"is_assign_internal_labels_to_edges": True}, {"taxon_namespace": "@tns:T0|T1|sp 2"}, {"taxon_namespace": "@tns:"},
+]
+NEXUS_ONLY_OPTIONS = [{"exclude_chars": True}, {"exclude_trees": True}, {"store_ignored_blocks": True},
+                      {"unconstrained_taxa_accumulation_mode": True}]
+PHYLIP_OPTIONS = [{}, {"strict": True}, {"interleaved": True}, {"strict": True, "interleaved": True}, {"multispace_delimiter": True},
+                  {"underscores_to_spaces": True}, {"ignore_invalid_chars": True}, {"multispace_delimiter": True, "interleaved": True}]
+MATRIX_OPTIONS = [{"taxon_namespace": "@tns:T0|T1"}, {"taxon_namespace": "@tns:"}]
+DATA_TYPES = {"dnamatrix": "dna", "rnamatrix": "rna", "proteinmatrix": "protein", "standardmatrix": "standard", "contmatrix": "continuous",
+              "restrictionmatrix": "restriction", "infinitematrix": "infinite"}
+
+# what a numeric field of a document is replaced by
+NUMERIC_VALUES = ["inf", "-inf", "Infinity", "-Infinity", "nan", "NaN", "1e309", "-1e309", "1e400", "1e-400", "0x10", "1_000", "١٢",
+                  "1.", ".5", "+1", "--1", "1e", "e1", "9" * 400, "99999999999", "", "1/0", "1/2", "0/0", "0", "-1", "-0", "00", "2", "1e5",
+                  "1E+2", "0.0", "'inf'", "'1e309'", "'9'", "'-1'", "1 2", "1,2", "1e3.5", "٣.٥", "½", "1" + "0" * 30 + ".5"]
+LONG_DIGITS = re.compile(r"\d{7,}")
+
+# where the numeric fields of a document are: (kind, regex whose group 1 is the field)
+NUMERIC_SITES = [
+    ("edge_length", re.compile(r":[ \t]*('[^']*'|[^,();\[\]\s:{}]+)")),
+    ("tree_weight", re.compile(r"\[&[Ww] ([^\]/]*)")),
+    ("tree_weight_den", re.compile(r"\[&[Ww] [^\]/]*/([^\]]*)")),
+    ("ntax", re.compile(r"(?i)\bntax\s*=\s*(\d+)")),
+    ("nchar", re.compile(r"(?i)\bnchar\s*=\s*(\d+)")),
+    ("charset_position", re.compile(r"(?i)\bcharset\s+\S+\s*=[^;]*?(\d+|\.)(?=[^;]*;)")),
+    ("charset_step", re.compile(r"(?i)\bcharset\s+\S+\s*=[^;]*\\\s*(\d+)")),
+    ("phylip_ntax", re.compile(r"\A\s*(\d+)\s+\d+")),
+    ("phylip_nchar", re.compile(r"\A\s*\d+\s+(\d+)")),
+    ("continuous_cell", re.compile(r"(?m)^[ \t]*[A-Za-z]\w*[ \t]+(?:-?[\d.]+(?:e-?\d+)?[ \t]+)*?(-?[\d.]+(?:e-?\d+)?)(?=[ \t\n])")),
+    ("jplace_edge_number", re.compile(r"\{(\d+)\}")),
+    ("translate_key", re.compile(r"(?m)^\s+(\d+) \S+[,;]?$")),
+]
+
+
+def numeric_fields(text):
+    """all (kind, start, end) of numeric fields in a document"""
+    out = []
+    for kind, rx in NUMERIC_SITES:
+        for m in rx.finditer(text):
+            out.append((kind, m.start(1), m.end(1)))
+    return out
+
+
+def gen_numeric_doc(rng):
+    """a valid document rich in numeric fields, with the reader options and the route it is to be read under"""
+    r = rng.random()
+    labs = ["T0", "T1", "sp_2", "'t 3'"][:rng.randint(2, 4)]
+    n = len(labs)
+    if r < 0.3:
+        trees = []
+        for _ in range(rng.randint(1, 2)):
+            w = rng.choice(["", "[&W 1/2] ", "[&W 0.25] ", "[&w 3] ", "[&R] [&W 1/4] ", "[&U] "])
+            trees.append(w + newick_of(rng, tu.rand_shape(rng, n, p_poly=0.3, p_unary=0.05), rng.sample(labs, n), lengths=True,
+                                       internal=rng.random() < 0.4, comments=rng.random() < 0.2) + ";")
+        return {"schema": "newick", "text": "\n".join(trees) + "\n"}, "tree"
+    if r < 0.38:
+        return {"schema": "newick", "text": "(%s);\n" % ",".join("%s:%s{%d}" % (l, rng.choice(["1", "0.5"]), i) for i, l in enumerate(labs))}, "jplace"
+    if r < 0.7:
+        nchar = rng.randint(2, 5)
+        cont = rng.random() < 0.35
+        interleave = rng.random() < 0.3
+        L = ["#NEXUS", "BEGIN TAXA;", "  DIMENSIONS NTAX=%d;" % n, "  TAXLABELS %s;" % " ".join(labs), "END;"]
+        L += ["BEGIN CHARACTERS;", "  DIMENSIONS %sNCHAR=%d;" % ("NTAX=%d " % n if rng.random() < 0.5 else "", nchar),
+              "  FORMAT DATATYPE=%s%s;" % ("CONTINUOUS" if cont else "DNA", " INTERLEAVE" if interleave else ""), "  MATRIX",
+              gen_matrix_rows(rng, labs, nchar, "CONTINUOUS" if cont else "DNA", interleave, False), "  ;", "END;"]
+        if rng.random() < 0.7:
+            a = rng.randint(1, nchar)
+            L += ["BEGIN SETS;", "  CHARSET c1 = %s;" % rng.choice(["%d-%d" % (a, nchar), "1-%d\\2" % nchar, "%d %d" % (1, a), "%d-." % a, "%d" % a]), "END;"]
+        translate = rng.random() < 0.5
+        L += ["BEGIN TREES;"]
+        if translate:
+            L += ["  TRANSLATE", ",\n".join("    %d %s" % (i + 1, l) for i, l in enumerate(labs)) + ";"]
+        for t in range(rng.randint(1, 2)):
+            names = [str(i + 1) if translate else l for i, l in enumerate(labs)]
+            L.append("  TREE t%d = %s%s;" % (t, rng.choice(["", "[&W 1/2] ", "[&R] [&W 0.5] "]),
+                                            newick_of(rng, tu.rand_shape(rng, n, p_poly=0.3, p_unary=0.05), names, lengths=True)))
+        L += ["END;"]
+        return {"schema": "nexus", "text": "\n".join(L) + "\n"}, "nexus"
+    if r < 0.87:
+        doc = gen_phylip(rng)
+        if rng.random() < 0.35:
+            nchar = rng.randint(1, 4)
+            rows = ["%s  %s" % (l.strip("'").replace(" ", "_"), " ".join(rng.choice(["1.5", "0", "-2.25", "1e-2", "3", ".5", "7."]) for _ in range(nchar))) for l in labs]
+            return {"schema": "phylip", "text": "%d %d\n%s\n\n" % (n, nchar, "\n".join(rows)), "kwargs": {}}, "phylip_cont"
+        return doc, "phylip"
+    return gen_fasta(rng), "fasta"
+
+
+def options_for(rng, kind, doc):
+    """reader options (1-3 merged option sets) and a route for a document of the given kind"""
+    schema = doc["schema"]
+    kwargs = dict(doc.get("kwargs") or {})
+    if kind in ("tree", "jplace", "nexus"):
+        pool = TREE_OPTIONS + (NEXUS_ONLY_OPTIONS if kind == "nexus" else [])
+        for o in rng.sample(pool, rng.choice([1, 1, 2, 3])):
+            kwargs.update(o)
+        if kind == "jplace" and rng.random() < 0.8:
+            kwargs["is_parse_jplace_tokens"] = True
+        if kwargs.get("case_sensitive_taxon_labels") and not str(kwargs.get("taxon_namespace", "")).startswith("@tnscs:"):
+            kwargs["taxon_namespace"] = "@tnscs:" + str(kwargs.get("taxon_namespace", "@tns:"))[5:]
+        if kwargs.get("is_assign_internal_labels_to_edges") and kwargs.get("suppress_internal_node_taxa") is False:
+            del kwargs["suppress_internal_node_taxa"]            # documented as conflicting (a usage error, not a data error)
+        route = rng.choice(ROUTES[schema])
+        if route == "dnamatrix" and any(k in kwargs for k in ("exclude_chars",)):
+            route = "dataset"
+        return kwargs, route
+    if kind in ("phylip", "phylip_cont"):
+        kwargs.update(rng.choice(PHYLIP_OPTIONS))
+        if rng.random() < 0.3:
+            kwargs.update(rng.choice(MATRIX_OPTIONS))
+        route = "contmatrix" if kind == "phylip_cont" and rng.random() < 0.8 else rng.choice(sorted(MATRIX_ROUTES) + ["dataset"])
+    else:
+        if rng.random() < 0.3:
+            kwargs.update(rng.choice(MATRIX_OPTIONS))
+        # FASTA is a sequence format: continuous data is a configuration, not an input, the reader cannot serve
+        route = rng.choice(sorted(set(MATRIX_ROUTES) - {"contmatrix"}) + ["dataset"])
+    if route == "dataset":
+        kwargs["data_type"] = rng.choice(sorted(set(DATA_TYPES.values()) - ({"continuous"} if schema == "fasta" else set())))
+    return kwargs, route
+
+
+def option_numeric_cases(rng, n_docs, per_doc):
+    """documents read under non-default reader options, with one or two numeric fields replaced"""
+    for _ in range(n_docs):
+        doc, kind = gen_numeric_doc(rng)
+        text = doc["text"]
+        fields = numeric_fields(text)
+        kwargs, route = options_for(rng, kind, doc)
+        yield make_case(doc["schema"], text, kwargs, route, "optvalid")
+        if not fields:
+            continue
+        for k in range(per_doc):
+            if k % 4 == 3:
+                kwargs, route = options_for(rng, kind, doc)
+            t = text
+            picks = sorted(rng.sample(fields, min(len(fields), rng.choice([1, 1, 1, 2]))), key=lambda f: -f[1])
+            kinds = []
+            for fkind, a, b in picks:
+                v = rng.choice(NUMERIC_VALUES)
+                if fkind == "nchar" and LONG_DIGITS.fullmatch(v) and re.search(r"(?i)charset", text):
+                    v = "7"       # `CHARSET x = ALL` under an astronomically large NCHAR builds the whole position set: not a parsing matter
+                t = t[:a] + v + t[b:]
+                kinds.append(fkind)
+            yield make_case(doc["schema"], t, kwargs, route, "optnum:" + "+".join(sorted(set(kinds))))
+
+
+def option_numeric_sweep(rng, full):
+    """the cross product option set x numeric value x field kind on small fixed documents (thorough: complete; quick: a
+    sample that still visits every option set, every value and every field kind)"""
+    templates = [
+        ("newick", "tree", "[&W {W}] (T0:{E},(T1:2,sp_2:0.5)x:1e-2);\n", {"E": "1", "W": "1/2"}),
+        ("newick", "tree", "[&W 1/{W}] (T0:1,T1:{E});\n", {"E": "0.5", "W": "4"}),
+        ("newick", "jplace", "(T0:1{{{J}}},T1:2{{1}});\n", {"J": "0"}),
+        ("nexus", "nexus", "#NEXUS\nBEGIN TAXA;\n DIMENSIONS NTAX={NTAX};\n TAXLABELS T0 T1;\nEND;\nBEGIN CHARACTERS;\n DIMENSIONS NCHAR={NCHAR};\n FORMAT DATATYPE=DNA;\n MATRIX\n T0 ACG\n T1 ACG\n ;\nEND;\n"
+                            "BEGIN SETS;\n CHARSET c = {P}-{Q}\\{S};\nEND;\nBEGIN TREES;\n TREE t = [&W {W}] (T0:{E},T1:1);\nEND;\n",
+         {"NTAX": "2", "NCHAR": "3", "P": "1", "Q": "3", "S": "2", "W": "1", "E": "1"}),
+        ("nexus", "nexus", "#NEXUS\nBEGIN DATA;\n DIMENSIONS NTAX={NTAX} NCHAR={NCHAR};\n FORMAT DATATYPE=CONTINUOUS;\n MATRIX\n T0 1.5 {C}\n T1 0 2\n ;\nEND;\nBEGIN SETS;\n CHARSET c = {P};\nEND;\n",
+         {"NTAX": "2", "NCHAR": "2", "C": "2.5", "P": "1"}),
+        ("phylip", "phylip", "{NTAX} {NCHAR}\nT0  ACG\nT1  ACG\n\n", {"NTAX": "2", "NCHAR": "3"}),
+        ("phylip", "phylip_cont", "{NTAX} {NCHAR}\nT0  1.5 {C}\nT1  0 2\n\n", {"NTAX": "2", "NCHAR": "2", "C": "2.5"}),
+    ]
+    for schema, kind, tpl, valid in templates:
+        if kind in ("tree", "jplace", "nexus"):
+            opts = [{}] + TREE_OPTIONS + (NEXUS_ONLY_OPTIONS if kind == "nexus" else [])
+        elif kind.startswith("phylip"):
+            opts = PHYLIP_OPTIONS
+        else:
+            opts = [{}]
+        if kind == "jplace":
+            opts = [dict(o, is_parse_jplace_tokens=True) for o in opts]
+        for field in sorted(valid):
+            for v in NUMERIC_VALUES:
+                if field == "NCHAR" and LONG_DIGITS.fullmatch(v) and "{P}" in tpl:
+                    continue
+                chosen = opts if full else rng.sample(opts, min(len(opts), 3))
+                for o in chosen:
+                    text = tpl.format(**dict(valid, **{field: v}))
+                    route = {"phylip": "dnamatrix", "phylip_cont": "contmatrix"}.get(kind) or rng.choice(ROUTES[schema][:4])
+                    yield make_case(schema, text, o, route, "optsweep:" + field)
+        for o in opts:           # every option set also on the valid document and on a random value per field
+            yield make_case(schema, tpl.format(**valid), o, {"phylip": "dnamatrix", "phylip_cont": "contmatrix"}.get(kind) or ROUTES[schema][0], "optvalid")
+            for field in sorted(valid):
+                v = rng.choice(NUMERIC_VALUES)
+                if field == "NCHAR" and LONG_DIGITS.fullmatch(v) and "{P}" in tpl:
+                    continue
+                yield make_case(schema, tpl.format(**dict(valid, **{field: v})), o,
+                                {"phylip": "dnamatrix", "phylip_cont": "contmatrix"}.get(kind) or ROUTES[schema][0], "optsweep:" + field)
+
+
 GENS = {"newick": gen_newick, "nexus": gen_nexus, "phylip": gen_phylip, "fasta": gen_fasta}
 
 
@@ -629,21 +857,49 @@ def open_source(case, keep):
     raise ValueError(kind)
 
 
+def _finish_node(node):
+    """a `finish_node_fn` that only looks at the node"""
+    node.c20_seen = True
+
+
+def decode_kwargs(dendropy, kwargs):
+    """replay files hold JSON: values that are not JSON (types, functions, namespaces) are written as "@..." markers"""
+    out = {}
+    for k, v in kwargs.items():
+        if isinstance(v, str) and v.startswith("@"):
+            if v == "@int":
+                v = int
+            elif v == "@float":
+                v = float
+            elif v == "@Fraction":
+                v = fractions.Fraction
+            elif v == "@fn":
+                v = _finish_node
+            elif v.startswith("@tns:"):
+                v = dendropy.TaxonNamespace([x for x in v[5:].split("|") if x])
+            elif v.startswith("@tnscs:"):
+                v = dendropy.TaxonNamespace([x for x in v[7:].split("|") if x], is_case_sensitive=True)
+            else:
+                raise ValueError(v)
+        out[k] = v
+    return out
+
+
 def call_reader(dendropy, case):
     import os
     schema, kwargs, route = case["schema"], case["kwargs"], case["route"]
     keep = []
     try:
         src = open_source(case, keep)
-        src.update(kwargs)
+        src.update(decode_kwargs(dendropy, kwargs))
         if route == "treelist":
             return dendropy.TreeList.get(schema=schema, **src)
         if route == "tree":
             return dendropy.Tree.get(schema=schema, **src)
         if route == "dataset":
             return dendropy.DataSet.get(schema=schema, **src)
-        if route == "dnamatrix":
-            return dendropy.DnaCharacterMatrix.get(schema=schema, **src)
+        if route in MATRIX_ROUTES:
+            return getattr(dendropy, MATRIX_ROUTES[route]).get(schema=schema, **src)
         raise ValueError(route)
     finally:
         for what, x in keep:
@@ -658,7 +914,7 @@ def call_reader(dendropy, case):
 
 MAX_HANGS = 6
 NO_DATA = re.compile(r"^No (trees|character data) (in|available)")
-TYPE_MISMATCH = re.compile(r"^Data source \(at offset \d+\) is of type '\w+', but current CharacterMatrix is of type 'dna'")
+TYPE_MISMATCH = re.compile(r"^Data source \(at offset \d+\) is of type '\w+', but current CharacterMatrix is of type '\w+'")
 
 
 def raised_outside_readers(e):
@@ -691,7 +947,7 @@ def run_impl(dendropy, case, limit):
         # the documented ValueError for a source without data of the requested kind (no trees / no character data / a matrix
         # of another data type than the class asked for) is raised by the object layer after the reader has returned:
         # recognised by where it is raised (no reader frame on the stack), or by its documented wording
-        if type(e) is ValueError and case["route"] in ("tree", "dnamatrix") and (
+        if type(e) is ValueError and (case["route"] == "tree" or case["route"] in MATRIX_ROUTES) and (
                 raised_outside_readers(e) or NO_DATA.match(str(e)) or TYPE_MISMATCH.match(str(e))):
             return "nodata", str(e), e
         return "internal", "%s: %s" % (type(e).__name__, str(e)[:160]), e
@@ -816,7 +1072,7 @@ def tree_problems(dendropy, tree, tns):
         if nd.taxon is not None and id(nd.taxon) not in members:
             probs.append("node taxon outside the tree's namespace")
         ln = nd.edge.length if nd._edge is not None else None
-        if ln is not None and not isinstance(ln, (int, float)):
+        if ln is not None and not isinstance(ln, numbers.Real):
             probs.append("edge length of type %s" % type(ln).__name__)
         if nd.label is not None and not isinstance(nd.label, str):
             probs.append("node label of type %s" % type(nd.label).__name__)
@@ -864,8 +1120,11 @@ def matrix_problems(dendropy, cm, case):
             probs.append("row lengths %s, declared NCHAR %s" % (lens, sorted(set(dims["nchar"]))))
         if lens and len(set(lens)) > 1:
             probs.append("rows of unequal length %s" % lens)
-        # document-wide fallback: only meaningful when there is a single taxon namespace the NTAX values can refer to
-        if own is None and len(re.findall(r"(?i)\bbegin\s+taxa\b", case["text"])) <= 1 and lens and dims["ntax"] and len(lens) > max(dims["ntax"]):
+        # document-wide fallback: only meaningful when there is a single taxon namespace the NTAX values can refer to, and
+        # when the read is not under an option documented to waive the NTAX of the TAXA block (an attached namespace,
+        # unconstrained_taxa_accumulation_mode); the NTAX of the matrix's own DIMENSIONS (above) binds in every mode
+        waived = case["kwargs"].get("unconstrained_taxa_accumulation_mode") or "taxon_namespace" in case["kwargs"]
+        if own is None and not waived and len(re.findall(r"(?i)\bbegin\s+taxa\b", case["text"])) <= 1 and lens and dims["ntax"] and len(lens) > max(dims["ntax"]):
             probs.append("%d rows returned, declared NTAX %s" % (len(lens), sorted(set(dims["ntax"]))))
     return sorted(set(probs)), lens
 
@@ -913,6 +1172,8 @@ class State(object):
         self.pending = []
         self.valid_docs = 0
         self.rejected_docs = 0
+        self.rounds_seen = 0
+        self.max_rounds_per_char = 0.0
 
 
 def judge(ctx, dendropy, case, st, complete_valid=False):
@@ -1034,6 +1295,10 @@ def queue_model(ctx, dendropy, case, klass, summary, st, detail=""):
     schema = case["schema"]
     if not ascii_ok(case["text"]):
         return
+    if schema == "nexus" and LONG_DIGITS.search(case["text"]):
+        # the model keeps CHARSET position lists explicitly; astronomically large numbers are left to the oracle
+        ctx.count("model_unmodelled:nexus-long-number")
+        return
     if schema == "newick" and not case["kwargs"]:
         if klass == "ok":
             got = "ok %d %s" % (len(summary["trees"]), " ".join(canon_tree(t) for t in summary["trees"]))
@@ -1048,6 +1313,8 @@ def queue_model(ctx, dendropy, case, klass, summary, st, detail=""):
             got = None   # Tree.get keeps one tree of the list; the list routes are compared
         if got is not None:
             st.pending.append(("newick " + hex6(case["text"]), case, got.strip(), "newick"))
+    elif schema in ("phylip", "fasta") and (case["route"] != "dnamatrix" or set(case["kwargs"]) - ({"strict", "interleaved"} if schema == "phylip" else set())):
+        return      # the line-reader models are of DNA matrices and of the options strict / interleaved
     elif schema == "phylip":
         if klass == "ok":
             got = "ok " + " ".join(str(x) for x in summary["rows"][0])
@@ -1141,6 +1408,14 @@ def flush(ctx, st):
         if m is None:
             continue
         m = normalise_model(op, m, got == "parse:?")
+        if op == "nexus" and " rounds=" in m:
+            # the model's count of loop rounds (all loops, all nesting levels) against its proved budget 18*|text|+8
+            m, rr = m.rsplit(" rounds=", 1)
+            used, total = (int(x) for x in rr.split("/"))
+            st.rounds_seen += 1
+            st.max_rounds_per_char = max(st.max_rounds_per_char, used / float(max(1, len(case["text"]))))
+            if used > total or total != 18 * len(case["text"]) + 8:
+                ctx.disagree("nexus-rounds", {k: case[k] for k in ("schema", "text", "kwargs", "route", "origin")}, "<= 18*len+8", rr)
         if m == "unmodelled":
             ctx.count("model_unmodelled:" + op)
             continue
@@ -1243,6 +1518,20 @@ def run(ctx):
     special_cases(ctx, dendropy, st)
     flush(ctx, st)
     thorough = ctx.tier == "thorough"
+    r0 = rng.randrange(3)
+    # the regenerated constants: block names, end keywords, DATATYPE keywords, initial FORMAT state, strict PHYLIP width
+    for k, case in enumerate(constants_battery(rng)):
+        if ctx.out_of_time() or st.hangs > MAX_HANGS:
+            break
+        if thorough or k % 3 == r0:
+            judge(ctx, dendropy, case, st)
+    flush(ctx, st)
+    # reader options x numeric fields: the cross product on small fixed documents (complete in the thorough tier)
+    for case in option_numeric_sweep(rng, thorough):
+        if ctx.out_of_time() or st.hangs > MAX_HANGS:
+            break
+        judge(ctx, dendropy, case, st)
+    flush(ctx, st)
     rounds = ctx.pick(400, 100000)
     reserve = ctx.pick(0, 330)      # thorough: keep time for the exhaustive enumeration
     for r in range(rounds):
@@ -1279,6 +1568,12 @@ def run(ctx):
                     judge(ctx, dendropy, make_case(mdoc["schema"], t, kwargs, ROUTES[mdoc["schema"]][0], "commentedit"), st)
             for _ in range(ctx.pick(25, 60)):
                 judge(ctx, dendropy, make_case(schema, random_string(rng, schema), {}, rng.choice(ROUTES[schema]), "random"), st)
+            if schema == "fasta":
+                # non-default reader options x corrupted numeric fields, on grammar-generated documents of every format
+                for case in option_numeric_cases(rng, ctx.pick(8, 20), ctx.pick(8, 16)):
+                    if ctx.out_of_time() or st.hangs > MAX_HANGS:
+                        break
+                    judge(ctx, dendropy, case, st)
             for _ in range(ctx.pick(10, 30)):
                 judge_tokens(ctx, dendropy, random_string(rng, rng.choice(["newick", "nexus"]), 30), rng.random() < 0.3, st)
         flush(ctx, st)
@@ -1291,6 +1586,8 @@ def run(ctx):
     ctx.extra["valid_documents_accepted"] = st.valid_docs
     ctx.extra["valid_documents_rejected_by_reader"] = st.rejected_docs
     ctx.extra["hangs"] = st.hangs
+    ctx.extra["nexus_loop_rounds"] = "accepted NEXUS reads of the model: %d; most loop rounds per input character: %.2f (proved budget: 18 per character + 8)" % (
+        st.rounds_seen, st.max_rounds_per_char)
 
 
 def exhaustive(ctx, dendropy, st):
@@ -1322,6 +1619,54 @@ def exhaustive(ctx, dendropy, st):
         flush(ctx, st)
     ctx.extra["exhaustive_small_scope"] = ("%d strings: newick over '(),:;a1 \\'[' up to length 5, fasta up to 6, phylip up to 7, and every "
                                            "NEXUS sequence of <= 3 tokens from a 22-keyword set after 5 block heads" % count)
+
+
+def constants_battery(rng):
+    """inputs aimed at the regenerated constants (Gen/C20Consts.lean): block names and their synonyms, the keywords that end a
+    block, DATATYPE keywords, the initial gap / missing / match characters, and strict PHYLIP labels around the field width"""
+    names = ["TAXA", "CHARACTERS", "DATA", "TREES", "SETS", "ASSUMPTIONS", "CODONS", "BEGIN", "TAXON", "CHARACTER", "TREE", "SET",
+             "NOTES", "DISTANCES", "UNALIGNED", "PAUP", "END", "ENDBLOCK"]
+    ends = ["END", "ENDBLOCK", "end", "EndBlock", "ENDBLOCKS", "END_BLOCK", "ENDB", "EN", "STOP"]
+    bodies = [" DIMENSIONS NTAX=2;\n TAXLABELS A B;\n", " DIMENSIONS NTAX=2 NCHAR=2;\n FORMAT DATATYPE=DNA;\n MATRIX\n A AC\n B AC\n ;\n",
+              " TREE t = (A,B);\n", " CHARSET c = 1;\n", " x y z;\n", ""]
+    for nm in names:
+        for nm2 in (nm, nm.lower()):
+            for body in bodies:
+                for e in (ends if nm in ("TAXA", "NOTES") else ends[:3]):
+                    yield make_case("nexus", "#NEXUS\nBEGIN TAXA;\n DIMENSIONS NTAX=2;\n TAXLABELS A B;\nEND;\nBEGIN %s;\n%s%s;\nBEGIN TREES;\n TREE u = (A,B);\nEND;\n" % (nm2, body, e),
+                                    {}, "dataset", "constants:block")
+    dts = ["DNA", "RNA", "NUCLEOTIDE", "NUCLEOTIDES", "PROTEIN", "CONTINUOUS", "STANDARD", "AMINOACID", "NUC", "dna", "Protein", "RESTRICTION", "X"]
+    rows = ["AC", "ac", "01", "1.5 2", "AU", "KL", "-?", "A.", "{AC}C", "9 9", "A-", "?1"]
+    for dt in dts:
+        for a in rows:
+            for fmt in ("FORMAT DATATYPE=%s;" % dt, "FORMAT DATATYPE=%s GAP=- MISSING=?;" % dt, "FORMAT DATATYPE = %s INTERLEAVE;" % dt):
+                yield make_case("nexus", "#NEXUS\nBEGIN DATA;\n DIMENSIONS NTAX=2 NCHAR=2;\n %s\n MATRIX\n A %s\n B %s\n ;\nEND;\n" % (fmt, a, rng.choice(rows)),
+                                {}, "dataset", "constants:datatype")
+    for a in rows + ["..", "A.", "-.", "?."]:       # no FORMAT statement: the initial state of the reader
+        yield make_case("nexus", "#NEXUS\nBEGIN DATA;\n DIMENSIONS NTAX=2 NCHAR=2;\n MATRIX\n A 01\n B %s\n ;\nEND;\n" % a, {}, "dataset", "constants:defaults")
+    for w in range(6, 15):
+        for inter in (False, True):
+            lab1, lab2 = "L" * w, "M" * (w - 1) + " "
+            text = "2 4\n%sACGT\n%sACGT\n\n" % (lab1, lab2)
+            yield make_case("phylip", text, dict({"strict": True}, **({"interleaved": True} if inter else {})), "dnamatrix", "constants:strict-width")
+            yield make_case("phylip", "2 4\n%s ACGT\n%s ACGT\n\n" % (lab1[:w - 1], lab2[:w - 1]),
+                            dict({"strict": True}, **({"interleaved": True} if inter else {})), "dnamatrix", "constants:strict-width")
+
+
+def search(ctx, broken):
+    """a regenerated constant left the supported subset, a bridge theorem no longer holds, or model and code disagree: look for a
+    concrete failing input on the real code in the affected mechanisms (block names, end keywords, DATATYPE keywords, initial
+    FORMAT state, strict PHYLIP label width, and the tokenizer sets)"""
+    dendropy = __import__("dendropy")
+    st = State()
+    for case in constants_battery(ctx.rng):
+        if ctx.out_of_time() or st.hangs > MAX_HANGS:
+            break
+        judge(ctx, dendropy, case, st)
+    for text in ("a b\tc\nd;e,f(g)h:i=j[k]l'm n'o", "a'b c'", "[x[y]z] w", "a-b _c", "{a}(b)\\c/d*e\"f\""):
+        for pu in (False, True):
+            judge_tokens(ctx, dendropy, text, pu, st)
+    flush(ctx, st)
 
 
 def replay(ctx, rec):
